@@ -556,7 +556,7 @@ def parse_statement(t):
 
 class Func:
     __slots__ = ('name', 'header', 'args', 'ret', 'locals', 'blocks', 'file', 'simple', 'argtypes',
-                 'debug', 'nlocals', 'crate')
+                 'debug', 'nlocals', 'crate', '_zst_closures')
 
     def __repr__(self):
         return '<Func %s>' % self.name
